@@ -164,13 +164,13 @@ def around(text: str, pos: int, width: int = 200) -> str:
 
 
 # ------------------------------------------------------------------------------------------ text round trip
-def parse_text(text: str, as_bytes: bool) -> Any:
+def parse_text(text: str, as_bytes: bool, **kw: Any) -> Any:
     from srctools.fgd import FGD
     from srctools.filesys import VirtualFileSystem
     data: Any = text.encode('cp1252') if as_bytes else text
     fsys = VirtualFileSystem({'gen.fgd': data})
     fgd = FGD()
-    fgd.parse_file(fsys, fsys['gen.fgd'], ignore_unknown_valuetype=True)   # custom type names are kept as str
+    fgd.parse_file(fsys, fsys['gen.fgd'], ignore_unknown_valuetype=True, **kw)   # custom type names are kept as str
     return fgd
 
 
@@ -295,6 +295,36 @@ def text_roundtrip(run, fgd: Any, custom: bool, label: bool, as_bytes: bool, eng
             run.violation(f'second export differs from the first at offset {k}',
                           witness={'first': text[max(0, k - 200):k + 200], 'second': text2[max(0, k - 200):k + 200]},
                           case=case, engine=engine, key=mkey)
+    # -------- the reduced way of reading (eval_bases=False: bases stay names until apply_bases()): once the bases are applied,
+    #          the same export and the same definitions (before that the order of the entities in an export is not promised)
+    if ok and only is None:
+        try:
+            lazy = parse_text(text, as_bytes, eval_bases=False)
+            lazy.apply_bases()
+            text3 = lazy.export(custom_syntax=custom, label_spawnflags=label)
+            snap3 = G.snap_fgd(lazy)
+        except Exception as exc:
+            tb = traceback.extract_tb(exc.__traceback__)
+            if tb and (os.sep + 'srctools' + os.sep) in tb[-1].filename:
+                ok = False
+                run.violation(f'reading with eval_bases=False, exporting and apply_bases() raised {type(exc).__name__}: {exc}',
+                              case=case, engine=engine, key='deferred-bases-raise')
+            else:
+                raise
+        else:
+            run.count('texts_read_with_deferred_bases')
+            d3 = G.first_diff(got, snap3)
+            if text3 != text:
+                ok = False
+                k = next((i for i, (a, b) in enumerate(zip(text, text3)) if a != b), min(len(text), len(text3)))
+                run.violation(f'the text read with eval_bases=False and completed with apply_bases() exports differently (offset {k})',
+                              witness={'full': text[max(0, k - 200):k + 200], 'deferred': text3[max(0, k - 200):k + 200]},
+                              case=case, engine=engine, key='deferred-bases-export-differs')
+            elif d3 is not None:
+                ok = False
+                run.violation(f'eval_bases=False followed by apply_bases() gives other definitions than a plain read at {d3[0]}: '
+                              f'{_clip(d3[1])!r} / {_clip(d3[2])!r}', witness={'path': d3[0]}, case=case, engine=engine,
+                              key='deferred-bases-differ')
     # -------- the same text read again after the caller edited everything the first read returned
     if ok:
         try:
@@ -1030,4 +1060,4 @@ def replay(run, data) -> None:
 
 
 # (kept at the end of the file so that the text above stays the description the check was first built to)
-RULE += ' ' + 'Later additions: the visgroup tree of the FGD given to export() is preserved by it; every entity of the bundled database reaches _CBaseEntity_; definitions returned by engine_def() are edited (everything mutable, bases included) and looked up again. The text of every round trip is read a second time after everything the first read returned was edited; both reads give the same definitions. A second binary database (150 sampled classes with their bases, twelve of them changed) is registered with add_engine_database: single look-ups made before and after a full load agree with the full load for overridden and bundled-only classes, and both hand out the overriding definition.'
+RULE += ' ' + 'Later additions: the visgroup tree of the FGD given to export() is preserved by it; every entity of the bundled database reaches _CBaseEntity_; definitions returned by engine_def() are edited (everything mutable, bases included) and looked up again. The text of every round trip is read a second time after everything the first read returned was edited; both reads give the same definitions. A second binary database (150 sampled classes with their bases, twelve of them changed) is registered with add_engine_database: single look-ups made before and after a full load agree with the full load for overridden and bundled-only classes, and both hand out the overriding definition. Every round-trip text is also read with eval_bases=False and completed with apply_bases(): export and definitions equal those of the plain read.'
